@@ -417,8 +417,9 @@ def as_wires(val, bitwidth=None, truncating=True, block=None):
     elif isinstance(val, _MemIndexed):
         # convert to a memory read when the value is actually used
         if val.wire is None:
-            val.wire = as_wires(val.mem._readaccess(val.index), bitwidth, truncating, block)
-        return val.wire
+            val.wire = val.mem._readaccess(val.index)
+        # the read data itself is shared by every use; each use extends or truncates it as it needs
+        return as_wires(val.wire, bitwidth, truncating, block)
     elif isinstance(val, WrappedWireVector):
         return val.wire
     elif not isinstance(val, WireVector):
